@@ -8,6 +8,7 @@
  * peer application submitted.  Also probes encode-before-complete. */
 #include "mxv.h"
 #include "wire.h"
+#include "tk.h"
 
 #define MAXCFG 96
 static wcfg_t cfgs[MAXCFG];
@@ -19,8 +20,8 @@ typedef struct { int ci, p; } grp_t;
 static grp_t groups[MAXCFG * 40];
 static long ngroups;
 
-enum { I_PLAIN23 = 0, I_RAND23, I_DONOR_SAME, I_DONOR_REFLECT, I_OWN_REFLECT, I_OWN_REPLAY, I_PROBE, I_NKIND };
-static const char *ikind[] = { "plain23", "rand23", "donor-samedir", "donor-reflect", "own-reflect", "own-replay", "encode-probe" };
+enum { I_PLAIN23 = 0, I_RAND23, I_DONOR_SAME, I_DONOR_REFLECT, I_OWN_REFLECT, I_OWN_REPLAY, I_PROBE, I_HSKEY23, I_NKIND };
+static const char *ikind[] = { "plain23", "rand23", "donor-samedir", "donor-reflect", "own-reflect", "own-replay", "encode-probe", "appdata-under-handshake-keys" };
 typedef struct { int kind, a, b; } inj_t;
 static inj_t injs[128];
 static int ninj;
@@ -53,6 +54,11 @@ static void build_injs(void)
     injs[ninj++] = (inj_t) { I_OWN_REFLECT, 0, 0 };
     injs[ninj++] = (inj_t) { I_OWN_REPLAY, 0, 0 };
     injs[ninj++] = (inj_t) { I_PROBE, 0, 0 };
+    /* TLS 1.3: application_data sealed under the peer's HANDSHAKE traffic secret with the sequence number the victim
+       expects.  These keys come out of the unauthenticated key exchange alone: an active attacker who answers the
+       ClientHello himself holds them without any credential (a: payload length 24 / 0) */
+    injs[ninj++] = (inj_t) { I_HSKEY23, 0, 0 };
+    injs[ninj++] = (inj_t) { I_HSKEY23, 1, 0 };
 }
 
 /* state shared between group setup and case */
@@ -150,6 +156,32 @@ static int build_injection(gctx_t *g, const inj_t *in, unsigned char *out)
         }
         wire_version_bytes(c->ver, &maj, &min);
         return mk_record(out, dtls, 23, maj, min, in->a, 9, body, len);
+    }
+    case I_HSKEY23:
+    {
+        unsigned char sec[64];
+        tk13_keys_t fk;
+        ssl_t *ssl = g->w.s[v].ssl;
+        int sl, hl;
+        uint16_t suite;
+        if (c->ver != V_TLS13 || !ssl || !ssl->cipher)
+        {
+            return 0;
+        }
+        suite = (uint16_t) ssl->cipher->ident;
+        if (suite != TLS_AES_128_GCM_SHA256 && suite != TLS_AES_256_GCM_SHA384 && suite != TLS_CHACHA20_POLY1305_SHA256)
+        {
+            return 0;   /* no TLS 1.3 suite chosen yet: no handshake keys exist */
+        }
+        hl = suite == TLS_AES_256_GCM_SHA384 ? 48 : 32;
+        sl = tk_keylog_find(v == 0 ? "s hs traffic" : "c hs traffic", sec);
+        if (sl != hl || tk13_keys_from_secret(&fk, suite, sec, hl) < 0)
+        {
+            return 0;
+        }
+        fk.seq = 0;
+        for (i = 0; i < 8; i++) fk.seq = (fk.seq << 8) | ssl->sec.remSeq[i];
+        return tk13_seal(&fk, 23, (const unsigned char *) "EVIL-UNDER-HANDSHAKE-KEY", in->a ? 0 : 24, out);
     }
     case I_DONOR_SAME:
         memcpy(out, g->donor.rec[1 - v], (size_t) g->donor.len[1 - v]);
